@@ -224,6 +224,12 @@ def run(ck):
                 # declared number of outputs
                 if nouts is not None and b.get('io') and b['io'][1] != nouts:
                     viol.append(("%s declares %d outputs for a dsp returning %d values" % (be, b['io'][1], nouts), src, rq))
+                # VM: every state access hits a cell of the published layout (hence lies inside the storage sized from it)
+                if be == "vm" and b.get('skel') and kind in ("gen",):
+                    for t, s in enumerate(b['samples']):
+                        off = events_hit_cells(b['skel'], s.get('trace', []))
+                        if off:
+                            viol.append(("VM state access %s at sample %d is not inside a cell of the layout %s" % (off[0], t, b['skel']), src, rq)); break
                 # VM: every state access inside the storage (hook H1 records the storage length with every access)
                 if be == "vm":
                     for s in b['samples']:
